@@ -152,11 +152,15 @@ func c08Enumerate(r *harness.Run, maxTab, maxEntries int, visit func(entries []c
 func runC08(tier string) int {
 	r := harness.NewRun("C08", "exploration", tier, budget(tier, 50*time.Second, 12*time.Minute))
 	maxTab, maxEntries := 2, 3
-	if tier == "thorough" {
-		maxTab, maxEntries = 3, 3
-	}
 	sw := map[string]string{"PV": "SEL"}
 	completed, nOpts := c08Enumerate(r, maxTab, maxEntries, func(entries []c08Entry, scope string, opt bool) { c08Eval(r, entries, scope, opt, sw) })
+	if tier == "thorough" {
+		// longer tables with fewer entries per statement
+		c2, n2 := c08Enumerate(r, 3, 2, func(entries []c08Entry, scope string, opt bool) { c08Eval(r, entries, scope, opt, sw) })
+		r.Set("entry_options_with_tables_of_3", n2)
+		r.Set("max_entries_completed_with_tables_of_3", c2)
+		maxTab = 3
+	}
 	if completed < maxEntries {
 		r.NotExhaustive(fmt.Sprintf("completed entry lists of length <= %d of planned <= %d", completed, maxEntries))
 	}
